@@ -8,8 +8,14 @@ use elliptic_curve::hash2curve::ExpandMsg;
 use serde_json::{json, Value};
 use zkryptium::bbsplus::ciphersuites::BbsCiphersuite;
 
-fn push(out: &mut Vec<Value>, id: String, call: &str, outcome: String, expect: &str) {
-    out.push(json!({"id": id, "call": call, "inputs": [], "outcome": outcome, "tags": [expect]}));
+/// `props`: the properties this probe speaks for ("C01,C10"): a sweep for property P counts a contradiction only when P is
+/// listed (C08, "never panics", additionally counts every panic)
+fn push_p(out: &mut Vec<Value>, props: &str, id: String, call: &str, outcome: String, expect: &str) {
+    let mut tags: Vec<String> = vec![expect.to_string()];
+    for p in props.split(',') {
+        tags.push(format!("prop:{}", p.trim()));
+    }
+    out.push(json!({"id": id, "call": call, "inputs": [], "outcome": outcome, "tags": tags}));
 }
 
 fn res(r: Result<(), ZkError>) -> String {
@@ -58,7 +64,7 @@ where
         _ => steps.push(("sign".into(), "err:sign failed".into())),
     }
     for (k, (what, o)) in steps.into_iter().enumerate() {
-        push(out, format!("history-interleave-{an}-then-{bn}-step{k}-{}", what.replace(' ', "_")), "sign / verify sequence across suites in one thread", o, "expect-ok");
+        push_p(out, "C01,C10,C11", format!("history-interleave-{an}-then-{bn}-step{k}-{}", what.replace(' ', "_")), "sign / verify sequence across suites in one thread", o, "expect-ok");
     }
 }
 
@@ -74,17 +80,17 @@ where
         let sig = match Sig::<CS>::sign(Some(&m), kp.private_key(), kp.public_key(), Some(HEADER)) {
             Ok(s) => s,
             Err(e) => {
-                push(out, format!("history-{name}-L{l}-sign"), "sign", format!("err:{e:?}"), "expect-ok");
+                push_p(out, "C01", format!("history-{name}-L{l}-sign"), "sign", format!("err:{e:?}"), "expect-ok");
                 continue;
             }
         };
-        push(out, format!("history-{name}-L{l}-honest"), "verify", guard(|| res(sig.verify(kp.public_key(), Some(&m), Some(HEADER)))), "expect-ok");
+        push_p(out, "C01", format!("history-{name}-L{l}-honest"), "verify", guard(|| res(sig.verify(kp.public_key(), Some(&m), Some(HEADER)))), "expect-ok");
         let mut idxs = vec![0usize, 31, 32, l - 2, l - 1];
         idxs.dedup();
         for i in idxs {
             let mut m2 = m.clone();
             m2[i] = b"altered".to_vec();
-            push(out, format!("history-{name}-L{l}-message-{i}-altered"), "verify(altered message)", guard(|| res(sig.verify(kp.public_key(), Some(&m2), Some(HEADER)))), "expect-err");
+            push_p(out, "C02", format!("history-{name}-L{l}-message-{i}-altered"), "verify(altered message)", guard(|| res(sig.verify(kp.public_key(), Some(&m2), Some(HEADER)))), "expect-err");
         }
         if l == 33 {
             // long messages: every octet is bound (sizes around 255 / 256 / 1000 octets)
@@ -92,23 +98,23 @@ where
                 let mut ml = msgs(2);
                 ml[1] = vec![0x5a; len];
                 if let Ok(sg) = Sig::<CS>::sign(Some(&ml), kp.private_key(), kp.public_key(), Some(HEADER)) {
-                    push(out, format!("history-{name}-message-of-{len}-octets-honest"), "sign+verify", guard(|| res(sg.verify(kp.public_key(), Some(&ml), Some(HEADER)))), "expect-ok");
+                    push_p(out, "C01", format!("history-{name}-message-of-{len}-octets-honest"), "sign+verify", guard(|| res(sg.verify(kp.public_key(), Some(&ml), Some(HEADER)))), "expect-ok");
                     let mut e1 = ml.clone();
                     e1[1][len - 1] ^= 1;
-                    push(out, format!("history-{name}-message-of-{len}-octets-last-octet-changed"), "verify(altered message)", guard(|| res(sg.verify(kp.public_key(), Some(&e1), Some(HEADER)))), "expect-err");
+                    push_p(out, "C02", format!("history-{name}-message-of-{len}-octets-last-octet-changed"), "verify(altered message)", guard(|| res(sg.verify(kp.public_key(), Some(&e1), Some(HEADER)))), "expect-err");
                     let mut e2 = ml.clone();
                     e2[1].truncate(len - 1);
-                    push(out, format!("history-{name}-message-of-{len}-octets-truncated-by-one"), "verify(altered message)", guard(|| res(sg.verify(kp.public_key(), Some(&e2), Some(HEADER)))), "expect-err");
+                    push_p(out, "C02", format!("history-{name}-message-of-{len}-octets-truncated-by-one"), "verify(altered message)", guard(|| res(sg.verify(kp.public_key(), Some(&e2), Some(HEADER)))), "expect-err");
                     let mut e3 = ml.clone();
                     e3[1].push(0);
-                    push(out, format!("history-{name}-message-of-{len}-octets-extended-by-one"), "verify(altered message)", guard(|| res(sg.verify(kp.public_key(), Some(&e3), Some(HEADER)))), "expect-err");
+                    push_p(out, "C02", format!("history-{name}-message-of-{len}-octets-extended-by-one"), "verify(altered message)", guard(|| res(sg.verify(kp.public_key(), Some(&e3), Some(HEADER)))), "expect-err");
                 }
             }
         }
         let mut m3 = m.clone();
         m3.swap(l - 1, l - 2);
-        push(out, format!("history-{name}-L{l}-last-two-swapped"), "verify(moved messages)", guard(|| res(sig.verify(kp.public_key(), Some(&m3), Some(HEADER)))), "expect-err");
-        push(out, format!("history-{name}-L{l}-last-removed"), "verify(removed message)", guard(|| res(sig.verify(kp.public_key(), Some(&m[..l - 1]), Some(HEADER)))), "expect-err");
+        push_p(out, "C02", format!("history-{name}-L{l}-last-two-swapped"), "verify(moved messages)", guard(|| res(sig.verify(kp.public_key(), Some(&m3), Some(HEADER)))), "expect-err");
+        push_p(out, "C02", format!("history-{name}-L{l}-last-removed"), "verify(removed message)", guard(|| res(sig.verify(kp.public_key(), Some(&m[..l - 1]), Some(HEADER)))), "expect-err");
     }
 }
 
@@ -131,7 +137,7 @@ where
         let (p1, p2) = match (mk(h1), mk(h2)) {
             (Ok(a), Ok(b)) => (a, b),
             (a, b) => {
-                push(out, format!("history-{name}-L{l}-header-setup"), "sign+proof_gen", format!("err:{:?} {:?}", a.err(), b.err()), "expect-ok");
+                push_p(out, "C03", format!("history-{name}-L{l}-header-setup"), "sign+proof_gen", format!("err:{:?} {:?}", a.err(), b.err()), "expect-ok");
                 continue;
             }
         };
@@ -153,7 +159,7 @@ where
             ("6-proof1-under-header1-again", ver(&p1, Some(h1)), "expect-ok"),
         ];
         for (what, o, exp) in seq {
-            push(out, format!("history-{name}-L{l}-header-{what}"), "proof_verify sequence in one thread", o, exp);
+            push_p(out, if exp == "expect-ok" { "C03" } else { "C04" }, format!("history-{name}-L{l}-header-{what}"), "proof_verify sequence in one thread", o, exp);
         }
     }
 }
@@ -172,21 +178,21 @@ where
         let cb = match Com::<A>::commit(cmo) {
             Ok((c, _)) => c.to_bytes(),
             Err(e) => {
-                push(out, format!("history-replay-{an}-M{mm}-commit"), "commit", format!("err:{e:?}"), "expect-ok");
+                push_p(out, "C05", format!("history-replay-{an}-M{mm}-commit"), "commit", format!("err:{e:?}"), "expect-ok");
                 continue;
             }
         };
         let m = msgs(1);
         let o1 = guard(|| match BSig::<A>::blind_sign(ka.private_key(), ka.public_key(), Some(&cb), Some(HEADER), Some(&m)) { Ok(_) => "ok:accepted".into(), Err(e) => format!("err:{e:?}") });
-        push(out, format!("history-replay-{an}-M{mm}-honest-blind_sign"), "blind_sign", o1, "expect-ok");
+        push_p(out, "C05", format!("history-replay-{an}-M{mm}-honest-blind_sign"), "blind_sign", o1, "expect-ok");
         let o2 = guard(|| match BSig::<B>::blind_sign(kb.private_key(), kb.public_key(), Some(&cb), Some(HEADER), Some(&m)) { Ok(_) => "ok:accepted".into(), Err(e) => format!("err:{e:?}") });
-        push(out, format!("history-replay-{an}-commitment-M{mm}-to-{bn}-signer-after-acceptance"), "blind_sign (cross-suite replay after an honest acceptance)", o2, "expect-err");
+        push_p(out, "C06", format!("history-replay-{an}-commitment-M{mm}-to-{bn}-signer-after-acceptance"), "blind_sign (cross-suite replay after an honest acceptance)", o2, "expect-err");
         // a flipped bit after acceptance is still refused by the accepting suite
         let mut bad = cb.clone();
         let n = bad.len();
         bad[n - 1] ^= 1;
         let o3 = guard(|| match BSig::<A>::blind_sign(ka.private_key(), ka.public_key(), Some(&bad), Some(HEADER), Some(&m)) { Ok(_) => "ok:accepted".into(), Err(e) => format!("err:{e:?}") });
-        push(out, format!("history-replay-{an}-M{mm}-bitflip-after-acceptance"), "blind_sign(edited commitment)", o3, "expect-err");
+        push_p(out, "C06", format!("history-replay-{an}-M{mm}-bitflip-after-acceptance"), "blind_sign(edited commitment)", o3, "expect-err");
     }
 }
 
@@ -205,7 +211,7 @@ where
             let bs = match BSig::<CS>::blind_sign(kp.private_key(), kp.public_key(), Some(&c.to_bytes()), Some(HEADER), Some(&m)) { Ok(s) => s, Err(e) => return format!("err:blind_sign:{e:?}") };
             res(bs.verify_blind_sign(kp.public_key(), Some(HEADER), Some(&m), cmo, Some(&b)))
         });
-        push(out, format!("history-{name}-issuance-{k}-M{mm}"), "commit + blind_sign + verify_blind_sign sequence", o, "expect-ok");
+        push_p(out, "C05,C10", format!("history-{name}-issuance-{k}-M{mm}"), "commit + blind_sign + verify_blind_sign sequence", o, "expect-ok");
     }
 }
 
@@ -223,13 +229,13 @@ where
             let p = match Pok::<CS>::proof_gen(kp.public_key(), &sig.to_bytes(), Some(HEADER), Some(PH), Some(&m), None) { Ok(p) => p, Err(e) => return format!("err:proof_gen:{e:?}") };
             res(p.proof_verify(kp.public_key(), None, None, Some(HEADER), Some(PH)))
         });
-        push(out, format!("history-{name}-proof-all-hidden-L{l}"), "sign + proof_gen + proof_verify, nothing disclosed", o, "expect-ok");
+        push_p(out, "C03", format!("history-{name}-proof-all-hidden-L{l}"), "sign + proof_gen + proof_verify, nothing disclosed", o, "expect-ok");
         let o = guard(|| {
             let (c, b) = match Com::<CS>::commit(Some(&m)) { Ok(x) => x, Err(e) => return format!("err:commit:{e:?}") };
             let bs = match BSig::<CS>::blind_sign(kp.private_key(), kp.public_key(), Some(&c.to_bytes()), Some(HEADER), None) { Ok(s) => s, Err(e) => return format!("err:blind_sign:{e:?}") };
             res(bs.verify_blind_sign(kp.public_key(), Some(HEADER), None, Some(&m), Some(&b)))
         });
-        push(out, format!("history-{name}-commit-M{l}"), "commit + blind_sign + verify_blind_sign, many committed messages", o, "expect-ok");
+        push_p(out, "C05", format!("history-{name}-commit-M{l}"), "commit + blind_sign + verify_blind_sign, many committed messages", o, "expect-ok");
     }
 }
 
